@@ -354,6 +354,16 @@ func sameValues(a, b url.Values) bool {
 
 // Code under test ---------------------------------------------------------------------------------------
 
+// follow-up builds on the same transport (r10): the same operation object once more, and a plain operation of the same base path
+type followUp struct {
+	again    *http.Request
+	againErr error
+	plain    *http.Request
+	plainErr error
+}
+
+var lastFollowUp followUp
+
 func buildOnce(c Case, order []int) (req *http.Request, err error, v *kit.Violation) {
 	base := c.Base
 	if c.BaseQuery != "" {
@@ -432,6 +442,12 @@ func buildOnce(c Case, order []int) (req *http.Request, err error, v *kit.Violat
 			})
 		}
 		req, err = rt.CreateHttpRequest(op)
+		lastFollowUp = followUp{}
+		if err == nil {
+			lastFollowUp.again, lastFollowUp.againErr = rt.CreateHttpRequest(op)
+			lastFollowUp.plain, lastFollowUp.plainErr = rt.CreateHttpRequest(&runtime.ClientOperation{ID: "c10-plain", Method: http.MethodGet, PathPattern: "/c10-plain", Schemes: c.OpSchemes,
+				Params: runtime.ClientRequestWriterFunc(func(runtime.ClientRequest, strfmt.Registry) error { return nil })})
+		}
 	})
 	return req, err, v
 }
@@ -494,6 +510,22 @@ func Check(c Case) *kit.Violation {
 			return kit.Failf("BUILD returned no request/URL; %s", describe(c))
 		}
 		u := req.URL.String() + " Host:" + req.Host
+		// the same operation object built once more on the same transport gives the same URL; an operation without any
+		// query of its own, built afterwards on that transport, carries the base path's static query and nothing else (r10)
+		fu := lastFollowUp
+		if fu.againErr != nil || fu.again == nil || fu.again.URL == nil {
+			return kit.Failf("SAME-OPERATION-AGAIN: the second CreateHttpRequest with the same operation object failed: %v; %s", fu.againErr, describe(c))
+		}
+		if u2 := fu.again.URL.String() + " Host:" + fu.again.Host; u2 != u {
+			return kit.Failf("SAME-OPERATION-AGAIN: the first CreateHttpRequest with an operation object gives %q, the second with the same object %q; %s", u, u2, describe(c))
+		}
+		if fu.plainErr != nil || fu.plain == nil || fu.plain.URL == nil {
+			return kit.Failf("LATER-OPERATION: building GET /c10-plain on the same transport afterwards failed: %v; %s", fu.plainErr, describe(c))
+		}
+		_, layers := wantQuery(c)
+		if gq, perr := url.ParseQuery(fu.plain.URL.RawQuery); perr != nil || !sameValues(gq, layers[0]) {
+			return kit.Failf("LATER-OPERATION: GET /c10-plain built on the same transport afterwards carries the query %q (%v), want the base path's static query %v only; %s", fu.plain.URL.RawQuery, perr, layers[0], describe(c))
+		}
 		if oi == 0 {
 			first, firstURL = req, u
 			continue
